@@ -30,24 +30,39 @@ type el struct{ a, b *big.Int }
 
 type fieldRef struct{ p *big.Int }
 
-func (f fieldRef) red(a *big.Int) *big.Int { return a.Mod(a, f.p) }
+// zeroInt is the shared imaginary part of prime-field elements; it is never written to.
+var zeroInt = new(big.Int)
 
+func (f fieldRef) red(a *big.Int) *big.Int { return a.Mod(a, f.p) } // a is a temporary owned by the caller
+
+// mk copies and reduces (for constants); own reduces temporaries in place.
 func (f fieldRef) mk(a, b *big.Int) el {
 	return el{new(big.Int).Mod(a, f.p), new(big.Int).Mod(b, f.p)}
 }
-func (f fieldRef) fromInt(v int64) el { return f.mk(big.NewInt(v), big.NewInt(0)) }
-func (f fieldRef) add(x, y el) el     { return f.mk(new(big.Int).Add(x.a, y.a), new(big.Int).Add(x.b, y.b)) }
-func (f fieldRef) sub(x, y el) el     { return f.mk(new(big.Int).Sub(x.a, y.a), new(big.Int).Sub(x.b, y.b)) }
-func (f fieldRef) neg(x el) el        { return f.sub(f.fromInt(0), x) }
+func (f fieldRef) own(a, b *big.Int) el { return el{f.red(a), f.red(b)} }
+func (f fieldRef) fromInt(v int64) el   { return f.mk(big.NewInt(v), zeroInt) }
+func (f fieldRef) add(x, y el) el {
+	if x.b.Sign() == 0 && y.b.Sign() == 0 {
+		return el{f.red(new(big.Int).Add(x.a, y.a)), zeroInt}
+	}
+	return f.own(new(big.Int).Add(x.a, y.a), new(big.Int).Add(x.b, y.b))
+}
+func (f fieldRef) sub(x, y el) el {
+	if x.b.Sign() == 0 && y.b.Sign() == 0 {
+		return el{f.red(new(big.Int).Sub(x.a, y.a)), zeroInt}
+	}
+	return f.own(new(big.Int).Sub(x.a, y.a), new(big.Int).Sub(x.b, y.b))
+}
+func (f fieldRef) neg(x el) el { return f.sub(f.fromInt(0), x) }
 func (f fieldRef) mul(x, y el) el {
 	if x.b.Sign() == 0 && y.b.Sign() == 0 { // both in the prime field
-		return el{f.red(new(big.Int).Mul(x.a, y.a)), new(big.Int)}
+		return el{f.red(new(big.Int).Mul(x.a, y.a)), zeroInt}
 	}
 	ac := new(big.Int).Mul(x.a, y.a)
 	bd := new(big.Int).Mul(x.b, y.b)
 	ad := new(big.Int).Mul(x.a, y.b)
 	bc := new(big.Int).Mul(x.b, y.a)
-	return f.mk(ac.Sub(ac, bd), ad.Add(ad, bc))
+	return f.own(ac.Sub(ac, bd), ad.Add(ad, bc))
 }
 func (f fieldRef) sqr(x el) el       { return f.mul(x, x) }
 func (f fieldRef) isZero(x el) bool  { return x.a.Sign() == 0 && x.b.Sign() == 0 }
@@ -61,7 +76,7 @@ func (f fieldRef) inv(x el) el {
 		if ai == nil {
 			panic("reference field: inverse of zero")
 		}
-		return el{ai, new(big.Int)}
+		return el{ai, zeroInt}
 	}
 	n := new(big.Int).Mul(x.a, x.a)
 	n.Add(n, new(big.Int).Mul(x.b, x.b))
@@ -70,7 +85,7 @@ func (f fieldRef) inv(x el) el {
 	if ni == nil {
 		panic("reference field: inverse of zero")
 	}
-	return f.mk(new(big.Int).Mul(x.a, ni), new(big.Int).Mul(new(big.Int).Neg(x.b), ni))
+	return f.own(new(big.Int).Mul(x.a, ni), new(big.Int).Mul(new(big.Int).Neg(x.b), ni))
 }
 
 // pt is an affine point or the neutral element.
